@@ -645,7 +645,11 @@ impl Prop for ConnProp {
                 let table = net.conn_table();
                 let known = known.lock().unwrap().clone();
                 let end_ns = vnow().as_nanos() as u64;
-                let ctx = Ctx { log: &log, dead: &dead, table: &table, known: &known, n, total, seed, end_ns, max_in, max_out, sub_open_ms: sub_open, t_final_ns: t_final * 1_000_000, any_net_fault: !faults.is_empty(), no_probe_b: &no_probe_b };
+                let freezes: Vec<(usize, u64, u64)> = faults.iter().filter(|f| f["kind"] == "freeze").map(|f| {
+                    let s = f["at_ms"].as_u64().unwrap_or(0) * 1_000_000;
+                    (f["node"].as_u64().unwrap_or(0) as usize, s, s + f["heal_after_ms"].as_u64().unwrap_or(0) * 1_000_000)
+                }).collect();
+                let ctx = Ctx { log: &log, dead: &dead, table: &table, known: &known, n, total, seed, end_ns, max_in, max_out, sub_open_ms: sub_open, t_final_ns: t_final * 1_000_000, any_net_fault: !faults.is_empty(), no_probe_b: &no_probe_b, freezes: &freezes };
                 let vs = ctx.check();
                 for (class, detail) in vs.iter() {
                     h.probe(&format!("oracle-hit:{}", class.split(':').next().unwrap_or("")));
@@ -681,6 +685,8 @@ struct Ctx<'a> {
     sub_open_ms: u64,
     t_final_ns: u64,
     no_probe_b: &'a BTreeSet<usize>,
+    /// process stalls of the plan: (node, start ns, end ns)
+    freezes: &'a [(usize, u64, u64)],
     any_net_fault: bool,
 }
 
@@ -1030,6 +1036,29 @@ impl<'a> Ctx<'a> {
         }
 
         // ---------- connection caps (C06) ----------
+        // a dial refused for the outbound limit: the outbound connections the manager can possibly
+        // be counting (every network connection this node opened that was alive, or had ended less
+        // than 2 s before) must reach the limit. Not judged when a host vanished silently: the
+        // surviving end keeps counting such a connection until it notices.
+        if let (Some(m), false) = (self.max_out, self.dead.values().any(|v| *v)) {
+            for r in &evs {
+                let (err, what) = match &r.k {
+                    K::DialCall { ok: false, err, .. } => (err, "dial"),
+                    K::PDialCall { ok: false, err, .. } => (err, "TransportService::dial"),
+                    _ => continue,
+                };
+                if !err.contains("MaxOutgoingConnectionsExceeded") {
+                    continue;
+                }
+                // a stalled process learns of a close only after it resumes
+                let lag = |d: u64| self.freezes.iter().filter(|f| f.0 == i && f.1 <= r.t && f.2 >= d).map(|f| f.2).max().unwrap_or(d).max(d);
+                let upper = self.table.iter().filter(|c| c.1.ip() == node_ip(i) && c.4 <= r.t && c.3.map_or(true, |d| lag(d) + 2_000_000_000 > r.t)).count() as u64;
+                if upper < m {
+                    v.push(("c06:dial-refused-below-limit".into(), format!("node {i}: {what} at {:.3}s refused with MaxOutgoingConnectionsExceeded, max_outgoing_connections = {m}, but this node had opened at most {upper} connection(s) that were alive or had ended within the last 2 s", r.t as f64 / 1e9)));
+                    break;
+                }
+            }
+        }
         // map every application-level ConnectionEstablished to the network connection it is about
         let mut accepted: Vec<(u64, usize, bool, usize)> = Vec::new(); // (t, peer, inbound, net conn id)
         let mut used: BTreeSet<usize> = BTreeSet::new();
